@@ -2,6 +2,7 @@ import ElaVerif.Model.Node
 import ElaVerif.Lemmas.Node
 import ElaVerif.Lemmas.NodeValid
 import ElaVerif.Lemmas.NodeBest
+import ElaVerif.Lemmas.NodeBestAll
 import ElaVerif.Gen.C12
 /-!
   C12 — the node follows the most-work valid chain.
@@ -78,6 +79,24 @@ theorem C12_best (P : Params) (g : Block) (bs : List Block) (s' : NState)
     (∀ k ∈ s'.known, workOf s' k.id ≤ workOf s' s'.tip.id) ∧ (∀ p ∈ s'.active, p.1 ∈ s'.known) := by
   have := (winv_inOrderRun h (winv_init P g) rfl).1
   exact ⟨this.best, this.actKnown⟩
+
+/-- **Most work wins, any delivery order.** `bs` is a universe of blocks in which every context check
+    succeeds wherever the node tries it (`AllValid`: no switch can fail) and whose heights are at or below
+    `CRCOnlyDPOSHeight` (guard off). Deliver any sequence `ds` of blocks of `bs` — out of order, repeated,
+    children before parents, so the orphan pool and `ProcessOrphans` are inside the theorem. Afterwards no
+    block in the index carries more cumulative work than the tip. The two exceptions of the rule are exactly
+    the two hypotheses: the irreversibility guard (C30) and a switch that fails half-way (C12-reorg-midway). -/
+theorem C12_best_any_order (P : Params) (g : Block) (bs ds : List Block) (hv : AllValid P bs)
+    (hg : g.height ≤ P.guardFrom) (hl : ∀ b ∈ bs, b.height ≤ P.guardFrom) (hd : ∀ d ∈ ds, d ∈ bs) :
+    let s' := deliverAll (initState P g) ds
+    (∀ k ∈ s'.known, workOf s' k.id ≤ workOf s' s'.tip.id) ∧ (∀ p ∈ s'.active, p.1 ∈ s'.known) := by
+  have := (ginv_deliverAll hv ds hd _ (ginv_init P g bs hg hl)).w
+  exact ⟨this.best, this.actKnown⟩
+
+/-- the hypothesis is inhabited: coinbase-only blocks below `CheckRewardHeight` -/
+theorem C12_allValid_inhabited (P : Params) (bs : List Block)
+    (h : ∀ b ∈ bs, (∃ cb, b.txs = [cb]) ∧ b.height < P.checkRewardFrom) : AllValid P bs :=
+  allValid_coinbaseOnly P bs h
 
 /-- one accepted block keeps the invariant from any state that has it -/
 theorem C12_best_step (s : NState) (b : Block) (hi : WInv s) (hf : Fresh s b)
